@@ -291,6 +291,22 @@ def cast_row(ctx, I, b, bb, st, term, fr, to, need):
     t = strip_casts(term)
     g_ = _c05.assert_guards(b, bb)
     # index < count guards with a count bounded by an invariant
+    if t[0] == 'call' and t[1] in ('std::iter::Iterator::count', 'std::iter::ExactSizeIterator::len') and to in ('u32', 'i64', 'u64', 'i32'):
+        # the number of items of an iterator over 0..E (below adapters that do not add items) is at most E; E of a type no wider than the
+        # target fits
+        src = t[2][0]
+        while src[0] == 'call' and src[1].startswith('std::iter::Iterator::') and src[1].split('::')[-1] in (
+                'filter', 'filter_map', 'map', 'rev', 'skip', 'take', 'step_by', 'skip_while', 'take_while', 'inspect', 'enumerate', 'into_iter') and src[2]:
+            src = src[2][0]
+        if src[0] == 'agg' and src[1] == 'std::ops::Range':
+            rf = dict(src[3])
+            end = rf['end']
+            ety = end[3] if end[0] == 'cast' else None
+            et = strip_casts(end)
+            small = (ety in ('u8', 'u16', 'u32') or (et[0] == 'call' and et[1] in (_c05.AF + 'num_layers', _c05.AF + 'num_frames', _c05.AF + 'num_tags')) or
+                     isinstance(q.const_val(et), int) and q.const_val(et) < 2**31)
+            if isinstance(q.const_val(rf['start']), int) and q.const_val(rf['start']) >= 0 and small and to != 'i32':
+                return True, 'a count of items drawn from 0..E with E a 32-bit quantity: at most E'
     if to == 'u16' and fr == 'u32' and t[0] == 'next':
         # a loop variable of 0..num_layers(): below the layer count, which I13 caps at 65536
         rg = q.unwrap_into_iter(t[1])
